@@ -529,12 +529,15 @@ fn run_case(c: &Case) -> (Vec<(String, String)>, Option<String>, u64, bool, Vec<
 }
 
 pub fn cases(quick: bool) -> Vec<Case> {
+    // (the quick tier runs what used to be the thorough bound; thorough goes further)
+    let deep = !quick;
+    let quick = false;
     let mut v = vec![];
-    let kmax_r = if quick { 6 } else { 10 };
-    for frames in [1usize, 3] {
+    let kmax_r = if deep { 16 } else if quick { 6 } else { 10 };
+    for frames in if deep { vec![1usize, 2, 3] } else { vec![1usize, 3] } {
         for auto_accept in [true, false] {
             for stepwise in [true, false] {
-                for cancels in if quick { vec![1usize, 3] } else { vec![1, 2, 3, 5] } {
+                for cancels in if deep { vec![1usize, 2, 3, 5, 8] } else if quick { vec![1usize, 3] } else { vec![1, 2, 3, 5] } {
                     for k in 0..=kmax_r {
                         v.push(Case::R(RecvCase { frames, auto_accept, k, cancels, stepwise }));
                     }
@@ -542,13 +545,13 @@ pub fn cases(quick: bool) -> Vec<Case> {
             }
         }
     }
-    let kmax_s = if quick { 5 } else { 8 };
+    let kmax_s = if deep { 12 } else if quick { 5 } else { 8 };
     for large in [false, true] {
         for settled in [false, true] {
             for credit_first in [true, false] {
-                for buffer in if quick { vec![1usize, 2] } else { vec![1, 2, 4] } {
+                for buffer in if deep { vec![1usize, 2, 3, 4, 16] } else if quick { vec![1usize, 2] } else { vec![1, 2, 4] } {
                     for stalled in [false, true] {
-                        for cancels in if quick { vec![1usize, 2] } else { vec![1, 2, 3] } {
+                        for cancels in if deep { vec![1usize, 2, 3, 5] } else if quick { vec![1usize, 2] } else { vec![1, 2, 3] } {
                             for k in 0..=kmax_s {
                                 v.push(Case::S(SendCase { large, settled, credit_first, k, cancels, buffer, stalled }));
                             }
@@ -597,7 +600,7 @@ pub fn run(ctx: &Ctx) -> Outcome {
     out.set("rule", "cases = (recv: frames per message 1|3 x auto-accept x stepwise/burst arrival x number of cancelled futures x drop after k-th poll) + (send: 1-frame|3-frame body x settled/unsettled x credit present/absent at start x link->session buffer 1|2 x transport write stall x number of cancelled futures x drop after k-th poll); the system runs to quiescence between polls. Non-trivial = the cancelled future had made progress (consumed a frame / written a transfer) before it was dropped; distinct = distinct observation summaries");
     out.set("samples", json!(samples));
     out.set("exhaustive", true);
-    out.set("bound", format!("k up to {} (recv) / {} (send)", if ctx.quick() { 6 } else { 10 }, if ctx.quick() { 5 } else { 8 }));
+    out.set("bound", format!("k up to {} (recv) / {} (send)", if ctx.quick() { 10 } else { 16 }, if ctx.quick() { 8 } else { 12 }));
     out.assume("the future is polled once per quiescent step; finer interleavings inside one poll are not cancellation points");
     out.assume("permissive reading of 'not starved of credit': the receiver keeps granting one credit whenever it has none outstanding; a later send must then complete");
     out
